@@ -1,17 +1,7 @@
 package main
 
 import (
-	"bufio"
-	"bytes"
-	"encoding/json"
 	"fmt"
-	"io"
-	"os"
-	"os/exec"
-	"strings"
-	"sync"
-	"syscall"
-	"time"
 
 	"verifharness/vh"
 )
@@ -26,7 +16,6 @@ type engine struct {
 	thorough bool
 	scale    int
 
-	mu       sync.Mutex
 	suspects []Case // in-process watchdog hits, confirmed in a child at the end
 	risky    []Case // cases that may exhaust the stack or memory: run in a child
 	latchObs []latchObservation
@@ -79,80 +68,6 @@ func (e *engine) randSched(r *vh.Rng, n int) Sched {
 	return s
 }
 
-// account records the evaluation in the report (histograms, non-triviality).
-func (e *engine) account(c Case, r runResult) {
-	repMu.Lock()
-	defer repMu.Unlock()
-	nontrivial := len(r.Stmts) > 0 || (r.Verdict == "error" && len(c.Input) > 8)
-	e.rep.Eval(c.Format+"\x00"+c.Opts.String()+"\x00"+string(c.Input), nontrivial)
-	e.rep.Count("format:" + c.Format)
-	e.rep.Count("family:" + c.Family)
-	e.rep.Count("verdict:" + c.Format + ":" + r.Verdict)
-	e.rep.Count("chunk:" + c.Sched.Chunk)
-	if c.Sched.FaultAt >= 0 {
-		e.rep.Count("fault:" + c.Sched.Fault)
-	}
-	switch n := len(r.Stmts); {
-	case n == 0:
-		e.rep.Count("stmts:0")
-	case n < 10:
-		e.rep.Count("stmts:1-9")
-	case n < 100:
-		e.rep.Count("stmts:10-99")
-	default:
-		e.rep.Count("stmts:100+")
-	}
-	if c.Opts.Offsets {
-		e.rep.Count("opt:offsets")
-	}
-	if c.Opts.Base {
-		e.rep.Count("opt:base")
-	}
-	if c.Opts.Lax {
-		e.rep.Count("opt:lax")
-	}
-	if c.Opts.Mode != "" {
-		e.rep.Count("opt:mode:" + c.Opts.Mode)
-	}
-	if r.Verdict != "panic" && r.Verdict != "hang" && len(e.latchObs) < 6000 {
-		e.latchObs = append(e.latchObs, latchObservation{Format: c.Format, N: len(r.Stmts), Err: r.Verdict == "error", LifeOK: len(r.Life) == 0})
-	}
-}
-
-// pool runs cases from the producer on nw workers.
-func (e *engine) pool(produce func(emit func(Case))) {
-	ch := make(chan Case, 256)
-	var wg sync.WaitGroup
-	for i := 0; i < e.nw; i++ {
-		wg.Add(1)
-		go func() {
-			defer wg.Done()
-			for c := range ch {
-				r := execCase(c)
-				if r.Verdict == "hang" {
-					repMu.Lock()
-					e.suspects = append(e.suspects, c)
-					repMu.Unlock()
-					continue
-				}
-				e.account(c, r)
-				e.k.judge(c, r)
-				if c.Sched.FaultAt >= 0 && r.Delivered && r.Verdict == "clean" {
-					e.k.add(violation{Prop: "C15", Kind: "fault-swallowed", Format: c.Format, Sub: c.Sched.Fault, Detail: "reader failed but the decoder ended cleanly", Case: c})
-				}
-			}
-		}()
-	}
-	produce(func(c Case) {
-		if !e.has(c.Format) {
-			return
-		}
-		ch <- c
-	})
-	close(ch)
-	wg.Wait()
-}
-
 func (e *engine) seeds(format string) []Seed { return e.corp.ByFormat[format] }
 
 // runTotality: the C05 / C06 generator families.
@@ -162,7 +77,7 @@ func (e *engine) runTotality() {
 	depths := []int{1, 2, 3, 8, 64, 300, 1000}
 	sizes := []int{1 << 10, 64 << 10}
 	if e.thorough {
-		nCorpus, nMut, nTrunc, nFault = 1 << 30, 400000, 30000, 30000
+		nCorpus, nMut, nTrunc, nFault = 1<<30, 400000, 30000, 30000
 		depths = []int{1, 2, 3, 8, 64, 300, 1000, 3000, 10000}
 		sizes = []int{1 << 10, 64 << 10, 256 << 10, 1 << 20}
 	}
@@ -170,14 +85,18 @@ func (e *engine) runTotality() {
 	if e.thorough {
 		e.rep.Exhaustive = append(e.rep.Exhaustive, "every suite file of the repository through its decoder(s) with 4 option combinations", "truncation at every offset of every suite file <= 2 KiB (sampled per format up to the budget), every 16th offset above")
 	}
-	e.pool(func(emit func(Case)) {
+	e.farm(e.nw, func(emitJob func(job)) {
+		emit := func(c Case) { emitJob(job{Kind: jobSingle, C: c}) }
 		// 1. round-0 and later witnesses, all option corners
 		for _, w := range e.corp.Round0 {
 			for _, f := range formatsOfWitness(w.Name) {
-				for i := 0; i < 8; i++ {
+				for i := 0; i < 16; i++ {
 					o := e.randOpts(r, f)
 					o.Offsets = i&1 == 1
 					o.Base = i&2 == 2
+					if f == "jsonld" || f == "htmljsonld" || f == "html" {
+						o.Mode = []string{"", "json-ld-1.1", "json-ld-1.0", ""}[(i>>2)&3]
+					}
 					sc := wholeSched
 					sc.Chunk = []string{"whole", "1", "rand", "midrune"}[(i/2)%4]
 					emit(Case{Format: f, Opts: o, Sched: sc, Input: w.B, Family: "witness", Name: w.Name})
@@ -305,254 +224,42 @@ func (e *engine) runTotality() {
 			}
 		}
 	})
-	e.runInChildren(e.risky, "risky")
+	e.runRisky()
 	e.confirmSuspects()
 }
 
+// runRisky: deep nesting and huge tokens, fewer children at a time (each may use gigabytes).
+func (e *engine) runRisky() {
+	n := e.nw / 2
+	if n < 1 {
+		n = 1
+	}
+	risky := e.risky
+	e.risky = nil
+	e.farm(n, func(emit func(job)) {
+		for _, c := range risky {
+			emit(job{Kind: jobSingle, C: c})
+		}
+	})
+}
+
+// confirmSuspects: watchdog hits are re-run one at a time with nothing else running; only a second
+// hit is a violation.
 func (e *engine) confirmSuspects() {
-	if len(e.suspects) == 0 {
+	repMu.Lock()
+	s := e.suspects
+	e.suspects = nil
+	repMu.Unlock()
+	if len(s) == 0 {
 		return
 	}
-	e.rep.Hist["watchdog-hits-in-process"] = len(e.suspects)
-	s := e.suspects
+	e.rep.Hist["watchdog-hits-first-pass"] += len(s)
 	if len(s) > 40 {
 		s = s[:40]
 	}
-	for len(s) > 0 { // one child at a time, nothing else running
-		done := e.oneChild(s, "confirm")
-		if done <= 0 {
-			done = 1
+	e.farm(1, func(emit func(job)) {
+		for _, c := range s {
+			emit(job{Kind: jobConfirm, C: c})
 		}
-		s = s[done:]
-	}
-}
-
-// ---------------------------------------------------------------- child processes
-
-type childResult struct {
-	I       int      `json:"i"`
-	Verdict string   `json:"v"`
-	N       int      `json:"n"`
-	Err     string   `json:"e,omitempty"`
-	PFunc   string   `json:"pf,omitempty"`
-	PKind   string   `json:"pk,omitempty"`
-	PValue  string   `json:"pv,omitempty"`
-	Life    []string `json:"l,omitempty"`
-	WF      []string `json:"w,omitempty"`
-	Deliv   bool     `json:"d,omitempty"`
-	Ms      int64    `json:"ms"`
-}
-
-// childMemCap: hard address-space limit of a child (the decoders under test can allocate gigabytes on
-// a few hundred kilobytes of nested input; the machine is shared).
-const childMemCap = 4 << 30
-
-func childMain() {
-	syscall.Setrlimit(syscall.RLIMIT_AS, &syscall.Rlimit{Cur: childMemCap, Max: childMemCap})
-	in := bufio.NewReaderSize(os.Stdin, 1<<20)
-	w := bufio.NewWriter(os.Stdout)
-	i := 0
-	for {
-		l, err := in.ReadString('\n')
-		if len(strings.TrimSpace(l)) > 0 {
-			c, ok := parseLine(strings.TrimSpace(l))
-			if ok {
-				fmt.Fprintf(w, "S %d\n", i)
-				w.Flush()
-				r := execCase(c)
-				cr := childResult{I: i, Verdict: r.Verdict, N: len(r.Stmts), Err: r.Err, Life: r.Life, WF: r.WF, Deliv: r.Delivered, Ms: r.Elapsed.Milliseconds()}
-				if r.Panic != nil {
-					cr.PFunc, cr.PKind, cr.PValue = r.Panic.Func, r.Panic.Kind, r.Panic.Value
-				}
-				if len(cr.Err) > 300 {
-					cr.Err = cr.Err[:300]
-				}
-				b, _ := json.Marshal(cr)
-				fmt.Fprintf(w, "R %s\n", b)
-				w.Flush()
-				if r.Verdict == "hang" {
-					os.Exit(3) // get rid of the leaked goroutine; the parent restarts a child for the rest
-				}
-			}
-			i++
-		}
-		if err != nil {
-			return
-		}
-	}
-}
-
-// runInChildren executes cases in child processes of this binary, several in parallel; a crash of a
-// child (fatal stack overflow, out of memory) is attributed to the case it was running.
-func (e *engine) runInChildren(cases []Case, why string) {
-	if len(cases) == 0 {
-		return
-	}
-	nproc := e.nw / 2
-	if nproc < 1 {
-		nproc = 1
-	}
-	if nproc > len(cases) {
-		nproc = len(cases)
-	}
-	var wg sync.WaitGroup
-	for p := 0; p < nproc; p++ {
-		var mine []Case
-		for i := p; i < len(cases); i += nproc {
-			mine = append(mine, cases[i])
-		}
-		wg.Add(1)
-		go func(mine []Case) {
-			defer wg.Done()
-			for len(mine) > 0 {
-				done := e.oneChild(mine, why)
-				if done <= 0 {
-					done = 1
-				}
-				mine = mine[done:]
-			}
-		}(mine)
-	}
-	wg.Wait()
-}
-
-// oneChild feeds the cases to one child; returns how many were consumed (finished or crashed).
-func (e *engine) oneChild(cases []Case, why string) int {
-	cmd := exec.Command(os.Args[0], "-child")
-	cmd.Env = append(os.Environ(), "GOMEMLIMIT=3GiB")
-	stdin, _ := cmd.StdinPipe()
-	stdout, _ := cmd.StdoutPipe()
-	var stderr bytes.Buffer
-	cmd.Stderr = &stderr
-	if err := cmd.Start(); err != nil {
-		fmt.Fprintln(realStderr, "child:", err)
-		return len(cases)
-	}
-	go func() {
-		w := bufio.NewWriterSize(stdin, 1<<20)
-		for _, c := range cases {
-			w.WriteString(c.Line())
-			w.WriteByte('\n')
-		}
-		w.Flush()
-		stdin.Close()
-	}()
-	sc := bufio.NewScanner(stdout)
-	sc.Buffer(make([]byte, 1<<20), 1<<26)
-	lines := make(chan string)
-	go func() {
-		for sc.Scan() {
-			lines <- sc.Text()
-		}
-		close(lines)
-	}()
-	finished, started := 0, -1
-	var total time.Duration
-	for _, c := range cases {
-		total += budget(len(c.Input)) + 5*time.Second
-	}
-	overall := time.After(total)
-loop:
-	for {
-		select {
-		case l, ok := <-lines:
-			if !ok {
-				break loop
-			}
-			if strings.HasPrefix(l, "S ") {
-				fmt.Sscan(l[2:], &started)
-			} else if strings.HasPrefix(l, "R ") {
-				var cr childResult
-				if json.Unmarshal([]byte(l[2:]), &cr) == nil && cr.I < len(cases) {
-					e.childOutcome(cases[cr.I], cr, why)
-					finished = cr.I + 1
-				}
-			}
-		case <-overall:
-			cmd.Process.Kill()
-			break loop
-		}
-	}
-	io.Copy(io.Discard, stdout)
-	err := cmd.Wait()
-	if finished < len(cases) && started >= finished {
-		// the child died while running cases[started]
-		c := cases[started]
-		msg := stderr.String()
-		kind, sub := "crash", "fatal"
-		switch {
-		case strings.Contains(msg, "stack overflow") || strings.Contains(msg, "goroutine stack exceeds"):
-			sub = "stack-overflow:" + firstRepoFrameText(msg)
-		case strings.Contains(msg, "out of memory") || strings.Contains(msg, "cannot allocate"):
-			sub = "out-of-memory"
-		case err != nil && strings.Contains(err.Error(), "killed"):
-			kind, sub = "hang", hangSub(c)
-		}
-		if strings.HasPrefix(sub, "out-of-memory") {
-			sub = "out-of-memory:" + hangSub(c)
-		}
-		if len(msg) > 600 {
-			msg = msg[:600]
-		}
-		repMu.Lock()
-		e.rep.Count("child-crash:" + sub)
-		repMu.Unlock()
-		e.k.add(violation{Prop: "C05", Kind: kind, Format: c.Format, Sub: sub, Detail: fmt.Sprintf("child process died (%v): %s", err, msg), Case: c})
-		return started + 1
-	}
-	if finished == 0 && started < 0 {
-		return len(cases) // child produced nothing at all: give up on this batch (reported through stderr)
-	}
-	return finished
-}
-
-func firstRepoFrameText(trace string) string {
-	for _, l := range strings.Split(trace, "\n") {
-		if strings.HasPrefix(l, repoMod) {
-			l = strings.TrimPrefix(l, repoMod)
-			if i := strings.LastIndex(l, "("); i > 0 {
-				l = l[:i]
-			}
-			return l
-		}
-	}
-	return "?"
-}
-
-func (e *engine) childOutcome(c Case, cr childResult, why string) {
-	if cr.Verdict == "hang" && why != "confirm" {
-		repMu.Lock()
-		e.suspects = append(e.suspects, c)
-		repMu.Unlock()
-		return
-	}
-	r := runResult{Outcome: Outcome{Verdict: cr.Verdict, Err: cr.Err, Life: cr.Life, WF: cr.WF, Elapsed: time.Duration(cr.Ms) * time.Millisecond}, Delivered: cr.Deliv}
-	r.Stmts = make([]string, cr.N)
-	if cr.PFunc != "" {
-		r.Panic = &PanicInfo{Func: cr.PFunc, Kind: cr.PKind, Value: cr.PValue}
-	}
-	if why == "confirm" && cr.Verdict != "hang" {
-		repMu.Lock()
-		e.rep.Count("watchdog-hit-not-confirmed")
-		repMu.Unlock()
-	}
-	e.account(c, r)
-	repMu.Lock()
-	if time.Duration(cr.Ms)*time.Millisecond > budget(len(c.Input))/2 {
-		e.rep.Count(fmt.Sprintf("near-watchdog(>50%%):%s:%s", c.Format, c.Name))
-	}
-	repMu.Unlock()
-	e.k.judge(c, r)
-}
-
-// hangSub: class sub-key of a watchdog hit: generator family and generator name (no depth / size).
-func hangSub(c Case) string {
-	n := c.Name
-	if i := strings.Index(n, "@"); i > 0 {
-		n = n[:i]
-	}
-	if c.Family == "nest" || c.Family == "huge" {
-		return c.Family + ":" + n
-	}
-	return c.Family
+	})
 }
